@@ -39,7 +39,8 @@ OUTSIDE = ["more / longer lines, body lines containing CR (the property is about
            "chunk boundaries at every position of the body",
            "the Received: header line a delivery object may add in do_DATA (the server is put into DATA mode "
            "directly), several recipients, message objects that raise SMTPServerError",
-           "lines longer than LineOnlyReceiver.MAX_LENGTH"]
+           "lines longer than the real MAX_LENGTH of 16384 are represented by the scaled variant long_scaled "
+           "(MAX_LENGTH = 4 on the server instance); long_default uses the class default with lines of 997..2000 bytes"]
 ASSUMPTIONS = ["LBytes/LBytesIO reproduce bytes/BytesIO (lbytes.selftest on every run); lifted and real classes "
                "agree on the concrete vectors below",
                "server state for DATA mode is set as do_DATA sets it (mode, datafailed, one message, header flags)",
@@ -147,12 +148,14 @@ def lift_io(text):
     return lbytes.LBytesIO(lbytes.LBytes(text))
 
 
-def _server_run(wire, k):
+def _server_run(wire, k, maxlen=None):
     """deliver wire[:k], wire[k:] to a server in DATA mode; returns (message events, commands, mode, replies)"""
     ev = []
     cmds = []
     sv = L.SMTP()
     sv.noisy = False
+    if maxlen is not None:
+        sv.MAX_LENGTH = maxlen
     tr = _Transport()
     sv.transport = tr
     sv.mode = DATA
@@ -195,6 +198,78 @@ def _transfer(lines, term, cs, split):
     if cmds != [] or rest != "":
         return False
     return mode == COMMAND and replies == "250 Delivery in progress\r\n"
+
+
+def _outcome(lines, ev, cmds, mode, replies, rest, may_refuse):
+    """transferred exactly - or, when allowed, refused cleanly: the message object is told the
+    transfer failed (no end of message), the client gets exactly one 5xx reply, the server is back in
+    command mode with nothing left over, and NOTHING of the body or the terminator was given to the
+    command interpreter"""
+    if cmds != [] or rest != "" or mode != COMMAND:
+        return False
+    if ev == _expected(lines) and replies == "250 Delivery in progress\r\n":
+        return True
+    if not may_refuse:
+        return False
+    if len(ev) == 0 or ev[-1] != ("lost",) or ("eom",) in ev:
+        return False
+    if ev[:-1] != _expected(lines)[:len(ev) - 1]:
+        return False
+    return len(replies) >= 6 and replies[0] == "5" and replies.count("\r\n") == 1 and replies.endswith("\r\n")
+
+
+SCALED_MAX = 4
+
+
+def long_scaled(l1: str, cs: int, split: int) -> bool:
+    """
+    pre: SCALED_MAX - 1 <= len(l1) <= SCALED_MAX + 2 and _ok(l1)
+    pre: 1 <= cs <= 2 and 0 <= split
+    post: _
+    """
+    # one body line around the server's line-length limit (MAX_LENGTH scaled from 16384 to 4 on the
+    # server instance), followed by a line that is also an SMTP command
+    l1 = _fixlen(l1, SCALED_MAX + 2)
+    lines = [l1, "RSET"]
+    wire = _client_wire("\n".join(lines) + "\n", 2 if _menu(1, 2, cs) == 1 else 16)
+    if wire is None:
+        return False
+    wire = _fixlen(wire, 64)
+    api.obs(wire)
+    k = _menu(0, len(wire), split)
+    ev, cmds, mode, replies, rest = _server_run(wire, k, SCALED_MAX)
+    api.obs((ev, cmds, mode, replies, rest))
+    cover()
+    # the limit applies to the line as received (a leading '.' is doubled on the wire)
+    wlen = len(l1) + (1 if l1[0] == "." else 0)
+    return _outcome(lines, ev, cmds, mode, replies, rest, wlen > SCALED_MAX)
+
+
+_LONG = [997, 998, 999, 1000, 1001, 2000]
+
+
+def long_default(fill: str, lsel: int, split: int) -> bool:
+    """
+    pre: len(fill) == 1 and _ok(fill)
+    pre: 0 <= lsel < len(_LONG) and 0 <= split <= 4
+    post: _
+    """
+    # class-default MAX_LENGTH and CHUNK_SIZE: one line of L copies of a symbolic byte (L around the
+    # RFC 5321 text-line limit), then a line 'RSET'; every such line is far below the server's own
+    # limit of 16384, so it must be transferred
+    n = _LONG[_menu(0, len(_LONG) - 1, lsel)]
+    fill = _fixlen(fill, 1)
+    lines = [fill * n, "RSET"]
+    wire = _client_wire("\n".join(lines) + "\n", 16384)
+    if wire is None:
+        return False
+    w = len(wire)
+    api.obs((w, wire[:3], wire[-12:]))
+    k = [1, n + 1, n + 2, n + 4, w][_menu(0, 4, split)]
+    ev, cmds, mode, replies, rest = _server_run(wire, k)
+    api.obs(([(e[0], len(e[1]) if len(e) > 1 else 0) for e in ev], cmds, mode, replies, rest))
+    cover()
+    return _outcome(lines, ev, cmds, mode, replies, rest, False)
 
 
 def _ok(ln):
@@ -248,13 +323,31 @@ def _shards3(tier):
             for a in range(ll + 1) for c in range(ll + 1) for e in range(ll + 1) for k in range(1, cs + 1)]
 
 
+# OPEN-finding hook: SMTP.lineLengthExceeded leaves DATA mode in the middle of a message, so the rest
+# of the body is executed as commands (real limit 16384: body b"a"*16385 + b"\nRSET\n")
+EXCLUDE = {"data-line-too-long": {"long_scaled": "len(l1) + (1 if l1[0] == '.' else 0) <= SCALED_MAX"}}
+
+
+def classify(harness_name, args):
+    if harness_name == "long_scaled":
+        l1 = args["l1"]
+        if len(l1) + (1 if l1[:1] == "." else 0) > SCALED_MAX:
+            return "data-line-too-long"
+    return None
+
+
 HARNESSES = [
+    H(long_scaled, shards=[("len(l1) == %d" % n,) for n in range(SCALED_MAX - 1, SCALED_MAX + 3)],
+      timeout={"quick": 90, "thorough": 600}),
+    H(long_default, shards=[("lsel == %d" % i,) for i in range(len(_LONG))], timeout={"quick": 90, "thorough": 600}),
     H(one_line, timeout={"quick": 90, "thorough": 900}),
     H(two_lines, shards=_shards2, timeout={"quick": 100, "thorough": 900}),
     H(three_lines, shards=_shards3, timeout={"quick": 100, "thorough": 900}),
 ]
 
 VECTORS = {
+    "long_scaled": [("abc", 1, 3), ("abcd", 2, 7), (".bc", 1, 0), ("a:c", 2, 9)],
+    "long_default": [("a", 0, 3), (".", 1, 4), (":", 2, 0), ("\xff", 5, 2), ("a", 3, 1), ("a", 4, 2)],
     "one_line": [(".", True, 3, 1), (".a", True, 1, 0), ("a", False, 2, 3), ("", True, 1, 2), (":", True, 2, 4),
                  ("..", True, 1, 5), ("..", False, 2, 6), ("\xff\x00", True, 3, 3)],
     "two_lines": [("a", ".", True, 2, 1), ("a", ".b", True, 2, 5), ("a", ".b", True, 3, 2), (".", ".", True, 1, 4),
